@@ -5,6 +5,7 @@
 #include <memory>
 #include <vector>
 #include <optional>
+#include <functional>
 
 namespace sqf::runtime
 {
@@ -24,6 +25,9 @@ namespace sqf::runtime
             std::vector<sqf::runtime::instruction::sptr>::const_reverse_iterator end,
             short parent_precedence, bool left_from_binary) const = 0;
         virtual bool equals(const instruction* p_other) const = 0;
+        /// Has to agree with equals: instructions that are equal hash equally. The printed form does for every
+        /// instruction whose equality is one of names or sizes.
+        virtual std::size_t hash() const { return std::hash<std::string>()(to_string()); }
 
         sqf::runtime::diagnostics::diag_info diag_info() const { return m_diag_info; }
         void diag_info(sqf::runtime::diagnostics::diag_info dinf) { m_diag_info = dinf; }
